@@ -3,16 +3,20 @@
 package core
 
 import (
+	"context"
 	"encoding/json"
 	"fmt"
 	"io"
 	"net"
 	"net/http"
+	"net/url"
 	"strings"
 	"sync"
 	"testing"
 	"time"
 
+	"github.com/bluenviron/gortmplib"
+	srt "github.com/datarhei/gosrt"
 	pwebrtc "github.com/pion/webrtc/v4"
 	"verif.local/vmon"
 )
@@ -69,7 +73,7 @@ func TestVerifC03Servers(t *testing.T) {
 			}
 		}
 	}
-	b := bbStart(t, map[string]bool{"rtsp": true, "hls": true, "api": true, "webrtc": true},
+	b := bbStart(t, map[string]bool{"rtsp": true, "hls": true, "api": true, "webrtc": true, "rtmp": true, "srt": true},
 		fmt.Sprintf("authMethod: http\nauthHTTPAddress: http://%s/auth\nauthHTTPExclude:\n  - action: api\nhlsAlwaysRemux: no\nhlsTrustedProxies: ['127.0.0.1']\nwebrtcTrustedProxies: ['127.0.0.1']\npaths:\n  p0:\n  p1:\n  \"~^live/(.+)$\":\n", ln.Addr().String()))
 	defer b.close()
 	hc := &http.Client{Timeout: 20 * time.Second}
@@ -133,7 +137,7 @@ func TestVerifC03Servers(t *testing.T) {
 	for i := 0; i < ops; i++ {
 		c := creds[rng.IntN(len(creds))]
 		n := names[rng.IntN(len(names))]
-		kind := rng.IntN(6)
+		kind := rng.IntN(10)
 		fwd := fmt.Sprintf("10.%d.%d.%d", 1+rng.IntN(200), rng.IntN(250), 1+rng.IntN(250)) // the client address announced by the (trusted) proxy
 		hold := time.Duration(60+rng.IntN(200)) * time.Millisecond
 		wg.Add(1)
@@ -166,6 +170,60 @@ func TestVerifC03Servers(t *testing.T) {
 					case <-time.After(hold):
 					}
 					rd.close()
+				}
+			case 6, 7: // RTMP publish / read (credentials in the query)
+				q := ""
+				if c[0] != "" {
+					q = "?user=" + c[0] + "&pass=" + c[1]
+				}
+				if kind == 6 {
+					p, err2 := c03cDialRTMP(b.ports["rtmp"], n+q)
+					key = "rtmp publish refused"
+					if err2 == nil {
+						key = "rtmp publish accepted"
+						p.attach() //nolint:errcheck
+						time.Sleep(hold)
+						p.close()
+					}
+				} else {
+					u, _ := url.Parse(fmt.Sprintf("rtmp://127.0.0.1:%d/%s%s", b.ports["rtmp"], n, q))
+					rc := &gortmplib.Client{URL: u, Publish: false}
+					ctx, cancel := context.WithTimeout(context.Background(), 5*time.Second)
+					err2 := rc.Initialize(ctx)
+					cancel()
+					key = "rtmp read refused"
+					if err2 == nil {
+						key = "rtmp read accepted"
+						time.Sleep(hold)
+						rc.Close()
+					}
+				}
+			case 8, 9: // SRT publish / read (credentials in the stream id)
+				sid := n
+				if c[0] != "" {
+					sid = n + ":" + c[0] + ":" + c[1]
+				}
+				if kind == 8 {
+					p, err2 := c03cDialSRT(b.ports["srt"], sid)
+					key = "srt publish refused"
+					if err2 == nil {
+						key = "srt publish accepted"
+						p.attach() //nolint:errcheck
+						time.Sleep(hold)
+						p.close()
+					}
+				} else {
+					cf := srt.DefaultConfig()
+					address, err2 := cf.UnmarshalURL(fmt.Sprintf("srt://127.0.0.1:%d?streamid=read:%s", b.ports["srt"], sid))
+					key = "srt read refused"
+					if err2 == nil && cf.Validate() == nil {
+						conn, err3 := srt.Dial("srt", address, cf)
+						if err3 == nil {
+							key = "srt read accepted"
+							time.Sleep(hold)
+							conn.Close()
+						}
+					}
 				}
 			case 5: // WebRTC publish / read through a trusted proxy
 				pc, perr := pwebrtc.NewPeerConnection(pwebrtc.Configuration{})
@@ -260,5 +318,5 @@ func TestVerifC03Servers(t *testing.T) {
 	if len(seen) < 5 {
 		r.Inconclusive("only %d sessions were ever seen attached: the monitor observed too little", len(seen))
 	}
-	r.Finish("a real Core (RTSP, HLS, Control API) with authMethod http pointing at a server run by the harness that decides from a random table (credentials x action x path) and logs every request with the session id; 24 concurrent real clients (gortsplib publishers / readers, HLS requests and WHIP / WHEP offers, the latter two through a trusted proxy address with X-Forwarded-For naming a unique client address) with three credential sets on static, regular-expression and unconfigured names; the Control API paths list is polled every 15 ms. Oracle: every session id ever shown as the source or a reader of a path has an admitted authentication request for (that id, the matching action, that path name); every HLS / WebRTC authentication request names one of the announced client addresses, never the proxy's. non-trivial = distinct client operation")
+	r.Finish("a real Core (RTSP, RTMP, SRT, HLS, WebRTC HTTP, Control API) with authMethod http pointing at a server run by the harness that decides from a random table (credentials x action x path) and logs every request with the session id; 24 concurrent real clients (gortsplib, gortmplib and gosrt publishers / readers, HLS requests and WHIP / WHEP offers, the latter two through a trusted proxy address with X-Forwarded-For naming a unique client address) with three credential sets on static, regular-expression and unconfigured names; the Control API paths list is polled every 15 ms. Oracle: every session id ever shown as the source or a reader of a path has an admitted authentication request for (that id, the matching action, that path name); every HLS / WebRTC authentication request names one of the announced client addresses, never the proxy's. non-trivial = distinct client operation")
 }
